@@ -2,7 +2,7 @@ CONSTANTS
   w1 = w1
   w2 = w2
   Wakers = {w1}
-  Target <- TgtQ1
+  Target <- TgtQ2
   Tasks = {"t1"}
   QCap = 1
   Mode = "external"
@@ -13,11 +13,11 @@ CONSTANTS
   Overflow = FALSE
   Hosts <- BothHosts
   Muts = {"none"}
-  Ops = {"o1"}
-  Timers = {}
-  Jobs = {}
-  Owner <- OwnQ1
+  Ops = {}
+  Timers = {"s1"}
+  Jobs = {"j1"}
+  Owner <- OwnQ2
   AnyTurn = TRUE
-SPECIFICATION XFairSpec
+SPECIFICATION XSpec
 INVARIANTS XTypeOK PendingBound TypeOK RealSafe CtlClearAfterPoll CtlIgnoreFlush CtlNoTimeout CtlNoFlush CtlDrainAfterBlocking
-PROPERTIES Completes WakeSeen OpSeen
+
